@@ -41,8 +41,30 @@ def row_alphabet(obj, f, kind, X):
     return A
 
 
-def expectation(obj, f, tag, value):
-    """'reject' or 'label'"""
+def rare_category(case):
+    """does the training column hold a category rarer than min_freq (=> a default group must exist)?
+    True / False / None (a frequency sits exactly on a threshold that is not a binary fraction)"""
+    from fractions import Fraction as F
+
+    cells = [c for c in case["cells"]]
+    sizes = [sum(c) for c in cells]
+    n = sum(sizes) + (sum(case["nan"]) if case.get("nan") else 0)
+    mf = case["min_freq"] if case["type"] == "disc" else case["cfg"]["min_freq"]
+    t = F(repr(float(mf)))
+    res = False
+    for sz in sizes:
+        if sz == 0:
+            continue
+        fr = F(sz, n)
+        if fr == t and F(float(mf)) != t:
+            return None
+        if fr < t:
+            res = True
+    return res
+
+
+def expectation(obj, f, tag, value, case=None):
+    """'reject' or 'label' ('either' when undecidable)"""
     order = obj.values_orders[f]
     if tag == "nan":
         return "label" if order.contains(obj.str_nan) else "reject"
@@ -50,6 +72,10 @@ def expectation(obj, f, tag, value):
         return "label"
     if order.contains(value) or order.contains(space.str_form(value)):
         return "label"
+    if case is not None and case["kind"] in ("CAT", "NUMCAT"):
+        # independent of how the default group is named: it exists iff a training category is rarer than min_freq
+        rare = rare_category(case)
+        return "either" if rare is None else ("label" if rare else "reject")
     return "label" if (obj.str_default is not None and order.contains(obj.str_default)) else "reject"
 
 
@@ -74,16 +100,19 @@ def make_frame(X, f, values, quantitative):
     return pd.DataFrame(data)
 
 
-def check_frame(obj, f, frame, rows, viol, where):
+def check_frame(obj, f, frame, rows, viol, where, case=None):
     """rows: list of (tag, value)"""
-    exp = [expectation(obj, f, t, v) for t, v in rows]
+    exp = [expectation(obj, f, t, v, case) for t, v in rows]
     must_reject = "reject" in exp
+    undecided = "either" in exp
     dropna = obj.features_dropna.get(f, obj.dropna)
     labs = label_set(obj, f)
     desc = [t for t, _ in rows]
     try:
         out = obj.transform(frame)
     except AssertionError as exc:
+        if undecided:
+            return "reject"
         if not must_reject:
             viol.append({"kind": "spurious-assert", "what": f"{where} {desc}: AssertionError although every row is acceptable: {str(exc)[:80]}"})
         elif f"'{f}'" not in str(exc) and f" {f}" not in str(exc):
@@ -92,7 +121,7 @@ def check_frame(obj, f, frame, rows, viol, where):
     except Exception as exc:  # noqa
         viol.append({"kind": f"other-exception-{type(exc).__name__}", "what": f"{where} {desc}: raised {type(exc).__name__}: {str(exc)[:100]} ({space.innermost_frame(exc)})"})
         return "error"
-    if must_reject:
+    if must_reject and not undecided:
         viol.append({"kind": "not-rejected", "what": f"{where} {desc}: accepted although a row must be rejected; output {out[f].tolist()[:4]!r}"})
         return "leak"
     vals = out[f].tolist()
@@ -125,7 +154,7 @@ def run_case(case):
     frames = [[]] + [[a] for a in A] + [list(p) for p in itertools.product(A, repeat=2)]
     for rows in frames:
         fr = make_frame(X, f, [v for _, v in rows], quant)
-        outcomes.add(check_frame(obj, f, fr, rows, viol, f"{len(rows)}-row frame"))
+        outcomes.add(check_frame(obj, f, fr, rows, viol, f"{len(rows)}-row frame", case))
         n += 1
     # 1-deviation frames of the training frame
     train_vals = X[f].tolist()
@@ -137,7 +166,7 @@ def run_case(case):
             rows = [("nan" if isnan(x) else "seen", x) for x in vals]
             rows[pos] = (t, v)
             fr = make_frame(X, f, vals, quant)
-            outcomes.add(check_frame(obj, f, fr, rows, viol, f"training frame with row {pos} replaced"))
+            outcomes.add(check_frame(obj, f, fr, rows, viol, f"training frame with row {pos} replaced", case))
             n += 1
     res["evaluations"] = n
     res["transitions"] = n
@@ -179,6 +208,25 @@ def enumerate_cases(tier, seed):
                                 continue
                             cfg = {"sort_by": "tschuprowt", "max_n_mod": 3, "min_freq": mf, "min_freq_mod": None, "output_dtype": od, "dropna": dropna}
                             cases.append({"type": "carver", "carver": "binary", "kind": kind, "cells": [list(x) for x in cells], "nan": list(nan) if nan else None, "dev": None, "cfg": cfg, "seed": seed, "json": False})
+    # user-chosen sentinels (every sub-discretizer must receive them) on tables with a rare category
+    KW = {"str_nan": "MISSING", "str_default": "OTHERS"}
+    for kind in ("QNT", "ORD", "CAT", "NUMCAT"):
+        tabs, tr = space.construct(cells_alpha, 2, 3, ordered=(kind not in ("CAT", "NUMCAT")), keep=lambda st: carving_space.valid_target("binary", st))
+        for cells in [t for t in tabs if (1, 1) in t][:: 2 if tier == "quick" else 1]:
+            for nan in (None, (2, 2)):
+                for mf in (0.1, 0.25):
+                    cases.append({"type": "disc", "cls": "Discretizer", "kind": kind, "cells": [list(c) for c in cells], "nan": list(nan) if nan else None, "min_freq": mf, "target": "binary", "seed": seed, "companion": None, "json": False, "kw": KW})
+                    cfg = {"sort_by": "tschuprowt", "max_n_mod": 3, "min_freq": mf, "min_freq_mod": None, "output_dtype": "str", "dropna": True}
+                    cases.append({"type": "carver", "carver": "binary", "kind": kind, "cells": [list(x) for x in cells], "nan": list(nan) if nan else None, "dev": None, "cfg": cfg, "seed": seed, "json": False, "kw": KW})
+    # degenerate quantitative / qualitative columns that end up with a single group (constant, almost all missing)
+    for kind in ("QNT", "CAT", "ORD"):
+        for cells in ([(3, 3)], [(6, 2)], [(1, 1)]):
+            for nan in (None, (2, 2), (12, 12)):
+                for cls in disc_space.CLASSES_BY_KIND[kind]:
+                    if cls in ("OrdinalDiscretizer", "CategoricalDiscretizer"):
+                        continue
+                    for mf in (0.1, 0.25):
+                        cases.append({"type": "disc", "cls": cls, "kind": kind, "cells": [list(c) for c in cells], "nan": list(nan) if nan else None, "min_freq": mf, "target": "binary", "seed": seed, "companion": None, "json": False})
     transitions += len(cases)
     return cases, transitions
 
